@@ -342,9 +342,18 @@ ExactClause(dd, L) ==
     ELSE "ok"
 
 \* C12 Robust: the first failing sub-clause, or "ok"
+\* menu items DEFINED BY the readable link files (blocks that do not hide): they are entries of the listing as well, and
+\* an unreadable link file may take away only its own
+HealthyLinkItems(dd) ==
+    UNION {{IF f.blocks[i].merge THEN dd.sb \o "/" \o f.blocks[i].tgt ELSE f.blocks[i].tgt
+               : i \in {q \in DOMAIN f.blocks : ~f.blocks[q].x /\ ~(f.blocks[q].merge /\ f.blocks[q].tgt \in Names(dd))}}
+           : f \in LinkFiles(dd)}
+LinkItemsListed(dd, L) == HealthyLinkItems(dd) \subseteq {L[i].sel : i \in DOMAIN L}
+
 RobustClause(dd, out) ==
     IF out.kind # "ok" THEN "Robust.Answered"
     ELSE IF ~(Healthy(dd) \subseteq ListedNames(dd, out.listing)) THEN "Robust.HealthyListed"
+    ELSE IF ~LinkItemsListed(dd, out.listing) THEN "Robust.HealthyListed"
     ELSE IF ~(ListedNames(dd, out.listing) \subseteq Visible(dd)) THEN "Robust.OnlyVisible"
     ELSE "ok"
 
